@@ -87,6 +87,13 @@ func buildReport(ps *PropSpec, out *runOutput, opts Options, wall float64, parti
 	runDir := filepath.Join(verifRoot, "runs", ps.ID)
 	_ = os.MkdirAll(runDir, 0o755)
 	seenKnown := map[string]bool{}
+	replayable := map[string]bool{}
+	defer func() {
+		// functions whose failed postconditions are replayed on the real code from the solver's model
+		// (free functions over integers and booleans); for every other function a violation is
+		// reported with no-failing-input-found
+		rep.Extras["model_replay_functions"] = sortedKeys(replayable)
+	}()
 	for _, r := range out.Results {
 		rep.Funcs = append(rep.Funcs, shortKey(r.Key))
 		rep.GenS += r.GenS
@@ -104,6 +111,9 @@ func buildReport(ps *PropSpec, out *runOutput, opts Options, wall float64, parti
 			rep.VacuityErrs = append(rep.VacuityErrs, fmt.Sprintf("%s: vacuous: %s", shortKey(r.Key), vp))
 		}
 		for _, o := range r.Obls {
+			if o.replay != nil {
+				replayable[shortKey(r.Key)] = true
+			}
 			if o.Res.Verdict == "" {
 				continue // filtered out by --obl
 			}
@@ -199,14 +209,14 @@ func writeReplay(path, prop string, o *Obligation) string {
 	suffix := "no-failing-input-found"
 	if o.Res.Verdict == "sat" {
 		rec["model"] = truncate(o.Res.Model, 20000)
-		if rp := tryReplay(prop, o); rp != nil {
-			rec["replay"] = rp
-			if rp.Reproduced {
-				suffix = "reproduced-on-real-code"
-			}
-		}
 	} else {
 		rec["explanation"] = "no solver refuted the negated obligation within the time limit: the obligation is undischarged (it discharged on the unchanged tree)"
+	}
+	if rp := tryReplay(prop, o); rp != nil {
+		rec["replay"] = rp
+		if rp.Reproduced {
+			suffix = "reproduced-on-real-code"
+		}
 	}
 	writeJSON(path, rec)
 	return suffix
